@@ -291,7 +291,10 @@ def inplace_rules(col, rule="C04.R4"):
                     facts.append(f"returns {S.show(a)}")
                     continue
                 for l in S.alts(a[2]):
-                    if l == EXPR:
+                    if l == ("bool", "or", (EXPR, CUR)):
+                        # `self._expr or self._get_value()`: the expression when there is a (truthy) one, else the value
+                        lefts.update(("expr", "value"))
+                    elif l == EXPR:
                         lefts.add("expr")
                         if any(_expr_absent(c) for c in conds):
                             facts.append("the expression form is returned when there is no expression")
@@ -325,6 +328,9 @@ def inplace_rules(col, rule="C04.R4"):
             if a == ("const", "None"):
                 continue
             n += 1
+            if S.is_call_of(a, ("glob", "getattr")) and len(a[2]) == 3 and a[2][0] in lookups and a[2][1] == ("const", repr("expr")) \
+                    and a[2][2] == ("const", "None"):
+                continue        # getattr(tasks[self], "expr", None)
             if not (a[:1] == ("attr",) and a[2] == "expr" and a[1] in lookups):
                 ok = False
                 facts.append(f"returns {S.show(a)}")
